@@ -26,7 +26,10 @@ RULE = ("One case = one solver call on a drawn (W, b, parameters). W is m x n wi
         "'mixed_sign' (>=1 positive and >=1 negative entry) or, for lstsq/svd only, all zero. SART: initial guess None / float / "
         "int / array (a few arrays with negative entries), relaxation (0, 1.5], beta_laplace [0, 0.2], Laplacian identity / 1-D "
         "(Neumann or Dirichlet) / 2-D 4- or 8-neighbour / random, max_iterations 1..60, conv_tol in {0, 1e-8..1e-1}, plus calls "
-        "that rely on the documented defaults. NNLS / LSQ: alpha log-uniform in [1e-3, 10], Tikhonov matrix None / identity / "
+        "that rely on the documented defaults. NNLS / LSQ: alpha = +-10^e, e in [-3, 1] (a third negative), or one of -0.0, 0.0, "
+        "+-1e-300, +-1e-30, +-1e30, +-1e100; the certificates use alpha^2 (stacked matrix built with alpha itself, C^T C is the "
+        "same); in half of the cases one more call with -alpha on the same objects must be certified too and return the "
+        "bit-identical solution and residual; Tikhonov matrix None / identity / "
         "Laplacians / random. Scale equivariance (a third of the cases, c = 2^k, |k| <= 60): SART(cW, cb, x0) = SART(W, b, x0) "
         "and SART(W, cb, c x0) = c SART(W, b, x0) with an unchanged convergence list; solve(W, cb) = c solve(W, b) and "
         "solve(cW, cb; c alpha) = solve(W, b; alpha) for nnls / lstsq / svd; the second solve uses the same dtypes-free float64 data "
@@ -153,7 +156,9 @@ REQUIRED_LABELS = [
         ("nnls", ("scale:W<=1e-13", "scale:W>=1e13", "scale:b<=1e-13", "scale:b>=1e13", "W:grazed_voxel", "W:small_units",
                   "equiv:Wb", "equiv:b", "equiv:bit_exact")),
         ("lstsq", ("scale:W<=1e-13", "scale:W>=1e13", "W:grazed_voxel", "W:small_units", "equiv:Wb", "equiv:b", "equiv:bit_exact")),
-        ("svd", ("scale:W<=1e-13", "W:small_units", "equiv:Wb", "equiv:b", "equiv:bit_exact"))) for lab in labs]
+        ("svd", ("scale:W<=1e-13", "W:small_units", "equiv:Wb", "equiv:b", "equiv:bit_exact"))) for lab in labs] + \
+    ["%s:%s" % (sub, lab) for sub in ("nnls", "lstsq")
+     for lab in ("alpha:negative", "alpha:zero", "alpha:tiny", "alpha:huge", "neg:called", "neg:bit_exact")]
 
 U = 2.0 ** -52
 DEFAULTS = {"max_it": 250, "relax": 1.0, "conv_tol": 1.0e-4, "beta": 0.01, "alpha": 0.01}   # documented defaults
@@ -313,7 +318,11 @@ def _reuse(draw, override):
 
 _sart_override = st.fixed_dictionaries({}, optional={"relax": _relax, "beta": st.floats(0.0, 0.2), "max_it": st.integers(1, 60)})
 _fixed_override = st.fixed_dictionaries({}, optional={"relax": _relax, "max_it": st.integers(1, 60)})
-_alpha_override = st.fixed_dictionaries({}, optional={"alpha": st.floats(-3.0, 1.0).map(lambda e: 10.0 ** e)})
+# alpha enters the objective as alpha^2 only: negative values, both zeros, tiny and huge magnitudes are all legitimate
+_ALPHA = st.one_of(st.floats(-3.0, 1.0).map(lambda e: 10.0 ** e), st.floats(-3.0, 1.0).map(lambda e: 10.0 ** e),
+                   st.floats(-3.0, 1.0).map(lambda e: -(10.0 ** e)),
+                   st.sampled_from([-0.0, 0.0, 1e-300, -1e-300, 1e-30, -1e-30, 1e30, -1e30, 1e100, -1e100, -1.0, -0.01]))
+_alpha_override = st.fixed_dictionaries({}, optional={"alpha": _ALPHA})
 
 
 @st.composite
@@ -408,7 +417,8 @@ def reg_case(draw, bkinds):
     case = {"W": w, "b": draw(b_vector(w, bkinds, bdt)), "L": draw(l_spec(n, True)),
             "W_dtype": wdt, "b_dtype": bdt, "layout": draw(_LAYOUT2), "b_layout": draw(_LAYOUT1)}
     if draw(st.integers(0, 11)) != 0:
-        case["alpha"] = 10.0 ** draw(st.floats(-3.0, 1.0))
+        case["alpha"] = draw(_ALPHA)
+    case["neg"] = draw(st.booleans())           # extra call with -alpha on the same objects: must give the same result
     case["reuse"] = _reuse(draw, _alpha_override)
     case["equiv"] = draw(_EQUIV)
     return case                                 # no "alpha" key: documented default alpha = 0.01
@@ -948,6 +958,46 @@ def _reg_setup(case, ctx):
     return W0, b0, L0, W, b, L, owned, base, lfro
 
 
+def _alpha_label(ctx, alpha):
+    if alpha == 0:
+        ctx.label("alpha:zero", "alpha:neg_zero" if np.signbit(alpha) else "alpha:pos_zero")
+    else:
+        if alpha < 0:
+            ctx.label("alpha:negative")
+        if abs(alpha) <= 1e-30:
+            ctx.label("alpha:tiny")
+        elif abs(alpha) >= 1e30:
+            ctx.label("alpha:huge")
+
+
+def _with_neg(case, calls, ctx):
+    """append the call with -alpha (same objects, same everything else): the objective depends on alpha^2 only."""
+    if case.get("neg"):
+        a = float(calls[0].get("alpha", DEFAULTS["alpha"]))
+        calls = calls + [dict(calls[0], alpha=-a)]
+        ctx.label("neg:called")
+    return calls
+
+
+def _neg_compare(ctx, case, results, C, d):
+    """results: {call_no: (x, reported)}; the -alpha call is the last one.  Negating the Tikhonov rows commutes with every
+    rounding of a Householder / SVD solve, so bit-identical output is expected; otherwise conditioning-bounded."""
+    if not case.get("neg") or 1 not in results or max(results) == 1 or (len(case.get("reuse") or []) + 2) not in results:
+        return
+    (x1, r1), (x2, r2) = results[1], results[len(case.get("reuse") or []) + 2]
+    if np.array_equal(x1, x2) and np.array_equal(r1, r2):
+        ctx.label("neg:bit_exact")
+        return
+    ctx.label("neg:not_bit_exact")
+    sv = _svals(C)
+    if not (sv.size and sv[0] > 0 and sv[-1] > 1e-7 * sv[0]):
+        return                                      # minimiser not unique / not continuous: both were certified separately
+    kappa = float(sv[0] / sv[-1])
+    tol = 1e-12 * kappa * kappa * (float(_norm(x1)) + float(_norm(d)) / float(sv[0]))
+    err = float(np.max(np.abs(x2 - x1)))
+    ctx.check(err <= tol, "alpha-sign", lambda: "solve(-alpha) differs from solve(alpha) by %.3g > %.3g (kappa = %.3g)" % (err, tol, kappa))
+
+
 def _reg_kw(prm, L):
     kw = {}
     if "alpha" in prm:
@@ -1028,9 +1078,11 @@ def run_nnls(case, ctx):
     degenerate, rank, _, _ = w_classes(W0, ctx, b0)
     any_active = False
     first = None
-    for call_no, prm in enumerate(_calls(case, base, ctx), 1):
+    results = {}
+    for call_no, prm in enumerate(_with_neg(case, _calls(case, base, ctx), ctx), 1):
         kw, alpha = _reg_kw(prm, L)
-        tag = "" if call_no == 1 else " [call %d on the same objects]" % call_no
+        _alpha_label(ctx, alpha)
+        tag = "" if call_no == 1 else " [call %d on the same objects, alpha=%r]" % (call_no, alpha)
         if _unrepresentable(_cert(W0, b0, L0, alpha)[0]):
             ctx.label("skipped:pseudo_inverse_not_representable")
             continue
@@ -1058,8 +1110,8 @@ def run_nnls(case, ctx):
         r = np.dot(C, x) - d
         g = np.dot(C.T, r)
         eps, nc = _eps(C, x, d, LS)
-        sl = U32 * alpha * lfro * float(_norm(x))      # float32 Tikhonov matrix only: bound on |(fl32(alpha L) - alpha L) x|
-        eps += 3.0 * alpha * lfro * sl
+        sl = U32 * abs(alpha) * lfro * float(_norm(x))      # float32 Tikhonov matrix only: bound on |(fl32(alpha L) - alpha L) x|
+        eps += 3.0 * abs(alpha) * lfro * sl
         ctx.check(bool(np.all(g >= -eps)), "kkt-dual",
                   lambda: "gradient C^T(Cx-d) has entry %.6g < -eps=%.3g at %d: x is not a minimiser over x>=0 (alpha=%g)%s"
                   % (float(g.min()), eps, int(np.argmin(g)), alpha, tag))
@@ -1073,10 +1125,13 @@ def run_nnls(case, ctx):
                   lambda: "reported residual norm %.12g, but |Cx-d| = %.12g (max(b)=%g)%s" % (rnorm, rn, float(b0.max()), tag))
         if bool(np.any((x == 0) & (g > eps))):
             any_active = True
+        results[call_no] = (x, np.array([rnorm]))
         if call_no == 1:
             first = (x, alpha, C, d)
     owned.verdict(ctx)
     if first is not None:
+        _neg_compare(ctx, case, results, first[2], first[3])
+
         def solve(W2, b2, ca):
             C2, d2 = _cert(W2, b2, L0, ca * first[1])
             if is_open(F_SCIPY) and _scipy_nnls_wrong(C2, d2):
@@ -1097,9 +1152,11 @@ def run_lstsq(case, ctx):
     degenerate, rank, _, _ = w_classes(W0, ctx, b0)
     c_def_any = False
     first = None
-    for call_no, prm in enumerate(_calls(case, base, ctx), 1):
+    results = {}
+    for call_no, prm in enumerate(_with_neg(case, _calls(case, base, ctx), ctx), 1):
         kw, alpha = _reg_kw(prm, L)
-        tag = "" if call_no == 1 else " [call %d on the same objects]" % call_no
+        _alpha_label(ctx, alpha)
+        tag = "" if call_no == 1 else " [call %d on the same objects, alpha=%r]" % (call_no, alpha)
         if _unrepresentable(_cert(W0, b0, L0, alpha)[0]):
             ctx.label("skipped:pseudo_inverse_not_representable")
             continue
@@ -1113,8 +1170,8 @@ def run_lstsq(case, ctx):
         r = np.dot(C, x) - d
         g = np.dot(C.T, r)
         eps, nc = _eps(C, x, d, LS)
-        sl = U32 * alpha * lfro * float(_norm(x))      # float32 Tikhonov matrix only, see run_nnls
-        eps += 3.0 * alpha * lfro * sl
+        sl = U32 * abs(alpha) * lfro * float(_norm(x))      # float32 Tikhonov matrix only, see run_nnls
+        eps += 3.0 * abs(alpha) * lfro * sl
         ctx.check(float(_norm(g)) <= eps, "normal-equations",
                   lambda: "|C^T(Cx-d)| = %.6g > eps = %.3g: x does not minimise |Wx-b|^2 + alpha^2|Lx|^2 (alpha=%g)%s"
                   % (float(_norm(g)), eps, alpha, tag))
@@ -1131,10 +1188,13 @@ def run_lstsq(case, ctx):
         else:
             ctx.label("residuals:empty")
         c_def_any = c_def_any or c_def
+        results[call_no] = (x, res)
         if call_no == 1:
             first = (x, alpha, C, d)
     owned.verdict(ctx)
     if first is not None:
+        _neg_compare(ctx, case, results, first[2], first[3])
+
         def solve(W2, b2, ca):
             kw2 = {"alpha": ca * first[1]}
             if L0 is not None:
@@ -1193,7 +1253,11 @@ def run_svd(case, ctx):
         g = np.dot(W0.T, r)
         eps, nc = _eps(W0, x, b0)
         nx, nb = float(_norm(x)), float(_norm(b0))
-        mtol = 1e-8 * nx
+        # + rounding of the solve itself: x = V S^-1 U^T b carries an absolute error of order eps |b| / sigma_min(kept), which is
+        # all there is when b is orthogonal to the range of W and the exact solution is 0
+        _sv = _svals(W0)
+        _sr = float(_sv[rank - 1]) if (not amb and rank > 0 and _sv.size >= rank) else 0.0
+        mtol = 1e-8 * nx + (64.0 * np.finfo(float).eps * nb / _sr if _sr > 0 else 0.0)
         if single:
             eps = 10.0 * U32 * kappa * nc * (nc * nx + nb)
             mtol = 10.0 * U32 * kappa * (nx + nb / sr)
